@@ -191,19 +191,50 @@ def pd_shared_regex(rng, n):
     return b
 
 
+def pd_shared_plain(rng, n):
+    """Control: ONE shared pandas schema without coerce / regex / frame dtype.
+    The temporary overrides are no-ops here, so nothing observable is shared:
+    any disagreement in this scenario is a race of another kind."""
+    import pandera as pa
+    s = pa.DataFrameSchema(
+        {"a": pa.Column(int, [pa.Check.gt(0), pa.Check.lt(100)]),
+         "b": pa.Column(float, pa.Check.in_range(0, 10), nullable=True),
+         "c": pa.Column(str, pa.Check.isin(["x", "y"]), unique=rng.random() < 0.4)},
+        index=pa.Index(int) if rng.random() < 0.5 else None,
+        strict=rng.choice([False, True]), ordered=rng.random() < 0.3)
+    rows = rng.randint(2, 5)
+    good = pd.DataFrame({"a": list(range(1, rows + 1)),
+                         "b": [0.5 * i for i in range(rows)],
+                         "c": ["x", "y"] + ["x"] * (rows - 2)})
+    bad = good.copy()
+    bad.loc[0, "a"] = -5
+    bad.loc[1, "a"] = 500
+    bad.loc[0, "b"] = 99.0
+    bad["c"] = ["q"] * rows
+    b = Built()
+    b.schemas["S"] = s
+    b.add("S.validate(good)", _v(s, good))
+    b.add("S.validate(bad) lazy", _v(s, bad, lazy=True))
+    if n == 3:
+        b.add("S.validate(bad) eager", _v(s, bad))
+    return b
+
+
 def pd_two_schemas(rng, n):
     """Control: different schema objects, nothing shared but the process."""
     import pandera as pa
     s1 = pa.DataFrameSchema({"a": pa.Column(int, pa.Check.gt(0), coerce=True),
                              "b": pa.Column(str, pa.Check.isin(["x", "y"]))})
-    s2 = pa.DataFrameSchema({"a": pa.Column(float, pa.Check.lt(10)),
+    s2 = pa.DataFrameSchema({"a": pa.Column(float, [pa.Check.lt(10),
+                                                    pa.Check.gt(1)]),
                              "z": pa.Column(int, unique=True)},
                             index=pa.Index(int), coerce=rng.random() < 0.5)
     s3 = pa.SeriesSchema(int, pa.Check.ge(0), name="q", coerce=True)
     rows = rng.randint(2, 5)
     d1 = pd.DataFrame({"a": [str(i + 1) for i in range(rows)],
                        "b": ["x"] * rows})
-    d2 = pd.DataFrame({"a": [1.5] * rows, "z": [1] * rows})   # duplicates
+    # several failures inside one component: a lazy call reports all of them
+    d2 = pd.DataFrame({"a": [11.5, 0.5] + [1.5] * (rows - 2), "z": [1] * rows})
     d3 = pd.Series([str(i) for i in range(rows)], name="q")
     if rng.random() < 0.5:
         d1.loc[0, "b"] = "nope"
@@ -368,6 +399,7 @@ SCENARIOS = {
     "pd_shared_coerce": (pd_shared_coerce, {"pandas_shared": True}),
     "pd_shared_frame_dtype": (pd_shared_frame_dtype, {"pandas_shared": True}),
     "pd_shared_regex": (pd_shared_regex, {"pandas_shared": True}),
+    "pd_shared_plain": (pd_shared_plain, {"pandas_shared": True}),
     "pd_two_schemas": (pd_two_schemas, {}),
     "pl_df_vs_lazy": (pl_df_vs_lazy, {"config": True}),
     "pl_vs_user_ctx": (pl_vs_user_ctx, {"config": True}),
